@@ -328,7 +328,7 @@ func c19Plan(p *PRNG, cfg Config, tier string) Plan {
 func init() {
 	Register(&PropSpec{
 		ID: "C19", Level: "exploration",
-		Rule: "Ethereum transactions of all three types (legacy, access-list, dynamic-fee) from three senders, several per block and per sender: plain transfers (value 0, 1, 1e12, half the balance, balance+1), contract creations (storage writer, store-then-revert, gas burner, forwarder), calls of deployed contracts, garbage calldata, gas limits 20999..40M, prices below the base fee / zero / normal / x1000 / tip above cap, nonce gaps and replays, interleaved with gateway precompile calls (in a third of the runs through a forwarder CONTRACT gateway, a quarter of those in a frame that reverts after the precompile returned) and cosmos transactions, base fee on or off, min-gas multiplier from genesis; around every transaction: nonce +1, min-multiplier x limit <= gas used <= limit, fee collector delta = gas used x effective price, sender delta = -(value + fee) with value 0 on failure, recipient delta, and for failed executions and for transactions failing admission a byte-level dump of the evm and restaking stores must be unchanged; non-trivial = >= 10 executed, >= 1 failed execution, >= 1 rejected at admission, all three tx types seen",
+		Rule: "Ethereum transactions of all three types (legacy, access-list, dynamic-fee) from three senders, several per block and per sender: plain transfers (value 0, 1, 1e12, half the balance, balance+1), contract creations (storage writer, store-then-revert, gas burner, forwarder), calls of deployed contracts, garbage calldata, fewer than four bytes of calldata to the stateful precompiles, a value the balance covers without the maximum fee, batches of two Ethereum messages in one cosmos transaction (create+transfer, transfer+transfer, transfer+create), gas limits 20999..40M, prices below the base fee / zero / normal / x1000 / tip above cap, nonce gaps and replays, interleaved with gateway precompile calls (in a third of the runs through a forwarder CONTRACT gateway, a quarter of those in a frame that reverts after the precompile returned, an eighth in STATICCALL / DELEGATECALL / nested reverting frames that pass value on) and cosmos transactions, base fee on or off, min-gas multiplier from genesis; around every transaction: nonce +1, min-multiplier x limit <= gas used <= limit, fee collector delta = gas used x effective price, sender delta = -(value + fee) with value 0 on failure, recipient delta, total supply unchanged, k included messages of a batch consume k nonces, a sender whose balance is below value + gas limit x price is charged nothing, a charge with reported gas used 0 is a violation, a reverted inner frame leaves no restaking state, and for failed executions and for transactions failing admission a byte-level dump of the evm and restaking stores must be unchanged; non-trivial = >= 10 executed, >= 1 failed execution, >= 1 rejected at admission, all three tx types seen",
 		Assumptions: []string{"the proposer is the harness: transactions failing admission are delivered anyway (a Byzantine proposer could) and must then cost and change nothing", "contracts are hand-assembled bytecode (no Solidity artefacts)"},
 		QuickRuns:   400, ThoroughRuns: 6000,
 		GenConfig: func(p *PRNG, tier string) Config {
